@@ -235,6 +235,8 @@ def run_case(spec):
                 lib.append({n: full(outs[s], n) for n in orders})
             except (Violation, Inconclusive):
                 raise
+            except RecursionError:
+                raise Inconclusive("sympy/lambdify recursion limit while denoting a very large output expression")
             except Exception as e:  # noqa: BLE001
                 raise Violation(f"evaluating {('H_tilde', 'U', 'U^dagger')[s]} raised {type(e).__name__}: {e} for H_0={H0b}, H_1={H1b}")
         for q, name in ((0, "H_tilde"), (1, "U")):
